@@ -512,6 +512,11 @@ Definition check (c : sexp) : sexp :=
                 else v_ok ["flood"; "nontrivial"]
               else
               if has_other log then v_oracle_fail "unknown-server-frame" []
+              else if existsb (is_sym "close-not-completed") stall then
+                (* the application's Close() did not return within the harness's bound although every handler call
+                   in flight returns upon the cancellation of its context *)
+                v_oracle_fail "close-not-completed" []
+              else if existsb (is_sym "handler-context-not-cancelled") stall then v_oracle_fail "close-not-completed" [SSym "not-cancelled"]
               else
               let kpos := List.length (obs_trace m [] p ls log reg_clean 0 (firstn m ls) (firstn m os) false [] [] {| a_err := []; a_cmp := []; a_sub := [] |}) in
               if negb (chk_ack_first p (observed_frames log)) then v_oracle_fail "ack-not-first" [] else
@@ -533,7 +538,9 @@ Definition check (c : sexp) : sexp :=
                               else match stall with
                                    | [] => v_ok (classes p ls t ++ (if Z.ltb reg 0 then ["registry-unobserved"] else []) ++
                                                  (if is_sym "pipe" ms then ["pipelined-while-closing"] else []) ++
-                                                 (if is_sym "gate" ms then ["closed-during-handler"] else []))
+                                                 (if is_sym "gate" ms then ["closed-during-handler"] else []) ++
+                                                 (if is_sym "gatectx" ms then ["closed-during-handler"; "handler-waits-for-cancellation"] else []) ++
+                                                 (if is_sym "full" ms then ["queue-full-while-closing"] else []))
                                    | _ => v_mismatch "harness-wait-timed-out" stall
                                    end
                           end
